@@ -52,6 +52,20 @@ Proof. exact overwrite_drops_guard. Qed.
 Print Assumptions modifier_drops_guard.
 
 (* non-vacuity *)
+(* the rendered routine may nest the two comparisons instead of joining them with &&: an assignment under
+   any nesting of guards without else branches has the value of the expression exactly when every guard holds,
+   and 0 otherwise; in particular "if (T>=a) { if (T<b) { k[i] = e; } }" is the statement with the window [a, b) *)
+Theorem nested_guards_are_their_conjunction : forall (s : nstmt) (T v : Q),
+  nstmt_value s T v = if forallb (fun g => guard_holds g T) (nstmt_guards s) then v else 0%Q.
+Proof. exact nested_value_lemma. Qed.
+Print Assumptions nested_guards_are_their_conjunction.
+
+Theorem nested_window_is_the_window : forall (a b T v : Q) (i : nat) (e : string),
+  nstmt_value (NIf (Lower a) (NIf (Upper b) (NAssign i e))) T v
+  = stmt_value {| rs_guard := Both a b; rs_index := i; rs_expr := e |} T v.
+Proof. exact nested_both_lemma. Qed.
+Print Assumptions nested_window_is_the_window.
+
 Theorem example_windows : c06_example_statement.
 Proof. exact c06_example_proof. Qed.
 Print Assumptions example_windows.
